@@ -106,3 +106,27 @@ func VerifC02_PollUnknownBridge() {
 		verifapi.Assert(err != nil || !verifEncodedMatch, "C02: an offer whose bridge is not in the list is never handed to a proxy as a match")
 	}
 }
+
+// ---- C03: the client count a proxy reports reaches the heap unchanged ----------------------------
+
+func VerifC03_CountPlumbing() {
+	ctx := verifNewContext()
+	go func() { verifapi.Daemon(); ctx.Broker() }()
+	n := verifapi.Int("clients")
+	go func() { ctx.RequestOffer("sid-a", "standalone", "unrestricted", n) }()
+	// look while the poll is waiting (before its time-out fires)
+	var sf *Snowflake
+	ok := false
+	for k := 0; k < 6 && !ok; k++ {
+		verifapi.Yield()
+		ctx.snowflakeLock.Lock()
+		sf, ok = ctx.idToSnowflake["sid-a"]
+		ctx.snowflakeLock.Unlock()
+	}
+	verifapi.Cover("a poll is waiting")
+	if ok {
+		verifapi.Cover("registered")
+		verifapi.Assert(sf.clients == n, "C03: a waiting proxy is ranked by exactly the client count it reported (all integers)")
+	}
+	verifapi.Quiesce() // let the poll time out and return
+}
